@@ -152,6 +152,63 @@ func driveMain(fs *flag.FlagSet, args []string) {
 		}
 	}
 
+	// cold-start runs: one run per fresh process
+	cold := p.ColdQuick
+	if *tier == "thorough" {
+		cold = p.ColdThorough
+	}
+	coldDone := 0
+	if cold > 0 {
+		var fv []string
+		for k, v := range p.ColdForce {
+			fv = append(fv, fmt.Sprintf("%s=%d", k, v))
+		}
+		sort.Strings(fv)
+		const coldBase = 1 << 28
+		var mu sync.Mutex
+		var wg sync.WaitGroup
+		next := 0
+		var coldErr error
+		for w := 0; w < *W; w++ {
+			wg.Add(1)
+			go func(w int) {
+				defer wg.Done()
+				for {
+					mu.Lock()
+					j := next
+					next++
+					mu.Unlock()
+					if j >= cold {
+						return
+					}
+					of := filepath.Join(*scratch, fmt.Sprintf("%s-cold-%d.json", p.ID, j))
+					args := []string{"work", "-prop", p.ID, "-tier", *tier, "-seed", strconv.FormatUint(*seed, 10), "-w", "0", "-W", "1",
+						"-from", strconv.Itoa(coldBase + j), "-to", strconv.Itoa(coldBase + j + 1), "-out", of, "-known", *known, "-sweep", "0", "-force", strings.Join(fv, ",")}
+					cmd := exec.Command(exe, args...)
+					cmd.Env = append(os.Environ(), "GOMAXPROCS=1", "GOTRACEBACK=single")
+					if b, err := cmd.CombinedOutput(); err != nil {
+						mu.Lock()
+						coldErr = fmt.Errorf("cold-start run %d: %v\n%s", j, err, b)
+						mu.Unlock()
+						return
+					}
+					var o WorkOut
+					if err := readJSON(of, &o); err == nil {
+						mu.Lock()
+						all = append(all, &o)
+						coldDone++
+						mu.Unlock()
+					}
+					os.Remove(of)
+				}
+			}(w)
+		}
+		wg.Wait()
+		if coldErr != nil {
+			die2("%v", coldErr)
+		}
+	}
+
 	// merge
 	tot := &WorkOut{Faults: map[string]int{}, Probes: map[string]int{}, Stats: map[string]int64{}, Known: map[int]*KnownHit{}}
 	shapes := map[string]bool{}
@@ -191,6 +248,9 @@ func driveMain(fs *flag.FlagSet, args []string) {
 	}
 	if len(tot.Samples) > 4 {
 		tot.Samples = tot.Samples[:4]
+	}
+	if coldDone > 0 {
+		tot.Stats["cold-start-runs (one fresh process each)"] = int64(coldDone)
 	}
 
 	// violations: shrink + verify + report
